@@ -98,6 +98,7 @@ Section Run.
   Variable mode : qmode.
   Variables top protected : list ev.
   Variable preds : list (ev * ev).
+  Variable guard : state -> ev -> bool.
   Variable nmodels : nat.
   Definition FUEL := 600.
 
@@ -105,8 +106,8 @@ Section Run.
     match sched with
     | [] => ([], s)
     | e :: r =>
-        let k := step_kind top preds s e in
-        let s' := step defs mode top protected preds FUEL s e in
+        let k := step_kind top preds guard s e in
+        let s' := step defs mode top protected preds guard FUEL s e in
         let new := skipn (length (h_log (s_sh s))) (h_log (s_sh s')) in
         let o := L [N k; L (flat_map e_item new); L (flat_map e_cancelled new);
                     L (newly_done (s_tasks s) (s_tasks s'));
@@ -118,24 +119,42 @@ Section Run.
     end.
 End Run.
 
+(* AsyncTimeout: the model's state m_t has one state S_t with a timeout whose on_timeout callback awaits the trigger
+   of event x.  AsyncTimeout.enter arms a timer per model, AsyncTimeout.exit cancels it: the timer is armed iff the
+   last set_state of m_t (recorded in the log) entered S_t.  (The generator keeps every set_state of m_t in a task
+   that read the current state — see harness/c08.py — so that the state exited is the state the model is in.) *)
+Definition last_set (m : model) (l : list item) : option st :=
+  fold_left (fun acc it => match it with
+                           | GSet _ m' d => if Nat.eqb m' m then Some d else acc
+                           | _ => acc end) l None.
+Definition timer_guard (tmo : option (model * (st * ev))) (s : state) (e : ev) : bool :=
+  match tmo with
+  | None => true
+  | Some (m, (st_t, x)) =>
+      if Nat.eqb e x then match last_set m (h_log (s_sh s)) with Some d => Nat.eqb d st_t | None => false end
+      else true
+  end.
+
 Definition d_mode (x : sx) : option qmode :=
   match x with N 0 => Some QNone | N 1 => Some QShared | N 2 => Some QPerModel | _ => None end.
 
-(* case := [class; queued; nstates; model initial states; events; top; protected; schedule; preds]
+(* case := [class; queued; nstates; model initial states; events; top; protected; schedule; preds; timeout]
+   timeout = [] | [[m_t; [S_t; x]]] (x is also listed in top: it is a root call chain, started by the timer)
    preds = pairs (e, p): e is awaited in the asyncio task that awaited p before
    (class and nstates do not influence the model: flat and hierarchical async machines agree on flat
    configurations; destinations are registered by construction of the generator) *)
 Definition run_asyncconc_case (x : sx) : sx :=
   match x with
-  | L [_; q; _; ms; evs; tp; pr; sc; pd] =>
+  | L [_; q; _; ms; evs; tp; pr; sc; pd; tm] =>
       match d_mode q, d_list d_nat ms, d_list d_event evs, d_list d_nat tp, d_list d_nat pr, d_list d_nat sc,
-            d_list (d_pair d_nat d_nat) pd with
-      | Some mode, Some inits, Some defs, Some top, Some prot, Some sched, Some preds =>
-          let (os, s) := run_steps defs mode top prot preds (length inits) (init_state mode inits) sched in
+            d_list (d_pair d_nat d_nat) pd, d_option (d_pair d_nat (d_pair d_nat d_nat)) tm with
+      | Some mode, Some inits, Some defs, Some top, Some prot, Some sched, Some preds, Some tmo =>
+          let (os, s) := run_steps defs mode top prot preds (timer_guard tmo) (length inits)
+                                   (init_state mode inits) sched in
           if s_oof s then L [N 9]
           else L [N 1; L os;
                   L (flat_map (fun t => if finished t then [] else [N (t_id t)]) (s_tasks s))]
-      | _, _, _, _, _, _, _ => L [N 0]
+      | _, _, _, _, _, _, _, _ => L [N 0]
       end
   | _ => L [N 0]
   end.
